@@ -62,6 +62,16 @@ fn gen_sample(rng: &mut Rng, cons: &[([u8; 3], Complex<f64>)]) -> (Complex<f64>,
         let r = Complex::from_polar(mag, rng.uniform(0.0, 2.0 * std::f64::consts::PI));
         return (r, sigma);
     }
+    // extreme noise levels, 1e-150..1e150, with the sample scaled so that r/sigma^2 stays moderate (sigma^2 and the
+    // products of r with itself then under/overflow although every quantity the LLR depends on is representable)
+    if rng.chance(0.05) {
+        let sigma = rng.logu(-150.0, 150.0);
+        let t = rng.logu(-1.0, 1.5);
+        let mag = sigma * sigma * t;
+        if mag.is_finite() && mag > 1e-305 {
+            return (Complex::from_polar(mag, rng.uniform(0.0, 2.0 * std::f64::consts::PI)), sigma);
+        }
+    }
     // samples EXACTLY on a bisector between two neighbouring points (two metrics are bit-for-bit equal there):
     // t*(1, sqrt2-1) and its images under the symmetries of the constellation, and the floats next to them
     if rng.chance(0.08) {
@@ -149,7 +159,7 @@ fn hard(llr: f64) -> u8 {
 }
 
 pub fn run(run: &mut Run) {
-    run.rule = "BPSK: LLR vs (|r-s1|^2-|r-s0|^2)/(2 sigma^2) with s0,s1 read from the public modulator (relative 1e-13); 8PSK: LLR_b vs max-shifted log-sum-exp over the constellation obtained from the public modulator (all 8 triples), tolerance 1e-9(1+|L|) + 64u*max|metric|; samples: constellation points (scaled), decision boundaries, origin, far away (|r| up to 1e3, and up to 1e100 with a proportionally large sigma), points exactly on the bisectors t*(1, sqrt2-1) and their images and 1-ulp neighbours, realistic noisy points, polar/log-uniform 1e-3..1e3; sigma log-uniform 1e-3..1e3; constellation = DVB-S2 Gray mapping, unit energy, neighbours differ in one bit; noiseless hard decisions for random bit sequences (owned arrays and reversed/strided views) return the bits; non-trivial = sample with |r|>0 not on a symmetry axis; distinct by (r, sigma) digest".into();
+    run.rule = "BPSK: LLR vs (|r-s1|^2-|r-s0|^2)/(2 sigma^2) with s0,s1 read from the public modulator (relative 1e-13); 8PSK: LLR_b vs max-shifted log-sum-exp over the constellation obtained from the public modulator (all 8 triples), tolerance 1e-9(1+|L|) + 64u*max|metric|; samples: constellation points (scaled), decision boundaries, origin, far away (|r| up to 1e3, and up to 1e100 with a proportionally large sigma), points exactly on the bisectors t*(1, sqrt2-1) and their images and 1-ulp neighbours, realistic noisy points, polar/log-uniform 1e-3..1e3; sigma log-uniform 1e-3..1e3 and (5 %) 1e-150..1e150 with r = sigma^2 * t, t in 0.1..30; whole blocks of 1000..140000 symbols (around 2^15, 2^16, 2^17 and not multiples of 256) checked symbol by symbol; constellation = DVB-S2 Gray mapping, unit energy, neighbours differ in one bit; noiseless hard decisions for random bit sequences (owned arrays and reversed/strided views) return the bits; non-trivial = sample with |r|>0 not on a symmetry axis; distinct by (r, sigma) digest".into();
     run.assumptions = vec!["|r|/sigma^2 stays below about 1e9 in every generated sample (far below the floating range)".into()];
     let n = if cfg!(miri) { 40 } else { run.tier.n(20_000_000, 600_000_000) };
     let chunk = 500u64;
@@ -206,6 +216,53 @@ pub fn run(run: &mut Run) {
             }
         }
     });
+    // long blocks (lengths around 2^15, 2^16 and not multiples of typical chunk sizes): every symbol of ONE demodulate
+    // call is compared with the oracle, so a block-wise or parallel implementation cannot lose a tail
+    if !cfg!(miri) {
+        run.sub("psk8-long-blocks", run.tier.n(12, 200), |l, idx, rng| {
+            let Ok(cons) = psk8_constellation() else { return };
+            let nsym = match idx % 6 {
+                0 => 32_768 + rng.range(1, 255),
+                1 => 65_536 + rng.range(1, 255),
+                2 => rng.range(32_768, 140_000),
+                3 => 21_600,
+                4 => *rng.pick(&[32_768usize, 65_536, 131_072]),
+                _ => rng.range(1000, 32_767),
+            };
+            let sigma = rng.logu(-1.0, 0.3);
+            let samples: Vec<Complex<f64>> = (0..nsym).map(|_| cons[rng.below(8)].1 + Complex::new(rng.normal() * sigma, rng.normal() * sigma)).collect();
+            l.eval();
+            let dem = Psk8Demodulator::from_noise_sigma(sigma);
+            let got = match guard(|| dem.demodulate(&samples)) {
+                Err(p) => {
+                    l.violation(format!("8PSK demodulate panicked on a long block: {}", panic_class(&p)), J::obj().set("symbols", nsym).set("panic", p));
+                    return;
+                }
+                Ok(g) => g,
+            };
+            if got.len() != 3 * nsym {
+                l.violation("8PSK demodulator returns a wrong number of LLRs for a long block", J::obj().set("symbols", nsym).set("llrs", got.len()));
+                return;
+            }
+            for i in 0..nsym {
+                let (want, scale) = psk8_oracle(&cons, samples[i], sigma);
+                for b in 0..3 {
+                    let tol = 1e-9 * (1.0 + want[b].abs()) + 64.0 * 1.1e-16 * scale;
+                    if !((got[3 * i + b] - want[b]).abs() <= tol) {
+                        l.violation(
+                            "8PSK LLR inside a long block is not the exact posterior log-ratio",
+                            J::obj().set("symbols_in_block", nsym).set("symbol_index", i).set("symbols_after_it", nsym - 1 - i).set("bit", b).set("got", got[3 * i + b]).set("expected", want[b]).set("sigma", jf(sigma)),
+                        );
+                        return;
+                    }
+                }
+            }
+            l.evals_add(nsym as u64);
+            let mut d = Dig::new();
+            d.s("long").u(nsym as u64).f(sigma).f(samples[0].re);
+            l.nt(d.get());
+        });
+    }
     run.sub("bpsk-demodulator", (n / chunk / 4).max(1), |l, idx, rng| {
         let m = BpskModulator::new();
         let s0 = m.modulate(&bits_arr(&[0]))[0];
